@@ -26,6 +26,7 @@ type generator struct {
 
 var gens = []generator{
 	{file: "Nucleotide.lean", src: "nucleotide.go", run: genNucleotide},
+	{file: "Cli.lean", src: "cmd/gts/*.go", run: genCli},
 }
 
 func writeIfChanged(path string, content []byte) (bool, error) {
